@@ -9,7 +9,7 @@ EXPLANATION = """
 extend_from_slice of exactly its parameter, once, not in a loop) and sign; in sign the dalek Signer::sign(signing_key, &buf) call
 precedes buf.clear(), clear() lies on every path to the return and the returned bytes are that signature.  signing_key is never written
 after construction.  (2) Determinism: nothing reachable from sign/update draws randomness or reads a clock.  (3) Verifier: update
-appends its parameter, verify = is_ok(VerifyingKey::verify(pubkey, buf, sig)) (C01.5); the verifying key is decoded from exactly the bytes passed to
+appends its parameter, verify = is_ok(VerifyingKey::verify(pubkey, buf, sig)) (C01.5) where sig is a Signature converted from exactly the bytes the caller passed (no masking, no normalisation); the verifying key is decoded from exactly the bytes passed to
 MsgVerifier::new (no cache, no global state); verifier objects are created per check and never stored.
 Chunking independence then follows from extend_from_slice being concatenation.
 """
